@@ -183,7 +183,7 @@ func driveC13(seed int64, tier, out, replay string) {
 				if i%3 == 2 {
 					c.Domain = "unions"
 				}
-				if i%6 == 4 {
+				if i%3 == 1 {
 					c.Domain = "ifaces"
 				}
 				cases = append(cases, c)
@@ -261,6 +261,9 @@ func driveC13(seed int64, tier, out, replay string) {
 			orng := hx.NewRand(c.OpSeed)
 			oo := opOptionsFor("inD01", r.World)
 			oo.UnevenIDs = c.OpSeed%3 == 0
+			// in interface worlds half of the operations carry fragments on other abstract types, on the type itself,
+			// nested: whatever the answer is, it has to be the same every time
+			oo.Wild = c.Domain == "ifaces" && c.OpSeed%2 == 0
 			op = gen.Operation(orng, r.Merged, oo)
 			if orng.Intn(4) == 0 {
 				if mop, ok := gen.MultiNodeRootOperation(orng, r.Merged, opOptionsFor("inD01", r.World)); ok {
@@ -309,7 +312,7 @@ func driveC13(seed int64, tier, out, replay string) {
 		line := "mkCase [] [] []"
 		listedShape := false // node roots spanning services: the scrub table's hypothesis does not hold (listed finding)
 		for _, f := range op.Features {
-			listedShape = listedShape || f == "multi_node_root"
+			listedShape = listedShape || f == "multi_node_root" || f == "wild_fragments"
 		}
 		if xerr == nil && before != nil && !listedShape {
 			beforeCoq := jsonObjToCoq(before)
